@@ -9,6 +9,7 @@ import KlogV.Model.Commands
 import KlogV.Model.JsonView
 import KlogV.Model.Bookmarks
 import KlogV.Model.Styler
+import KlogV.Model.Prettify
 import KlogV.Gen.Themes
 open KlogV
 
@@ -162,9 +163,16 @@ def bkHistory (toks : List String) : String :=
 
 def stylerOf (theme : String) : Styler :=
   let rows := Gen.themeTable.filter (fun r => r.1 == theme)
-  { seqs := fun p => match rows.find? (fun r => r.2.1 == p.color && r.2.2.1 == p.underlined && r.2.2.2.1 == p.bold) with
-      | some r => r.2.2.2.2.1.toList
-      | none => [],
+  let bgRows := Gen.themeBgTable.filter (fun r => r.1 == theme)
+  { seqs := fun p =>
+      if p.background == .unspecified then
+        match rows.find? (fun r => r.2.1 == p.color && r.2.2.1 == p.underlined && r.2.2.2.1 == p.bold) with
+        | some r => r.2.2.2.2.1.toList
+        | none => []
+      else
+        match bgRows.find? (fun r => r.2.1 == p.color && r.2.2.1 == p.background) with
+        | some r => r.2.2.2.toList
+        | none => [],
     reset := match rows.head? with | some r => r.2.2.2.2.2.toList | none => [] }
 
 def handle (u : UTab) (args : List String) : String :=
@@ -175,6 +183,15 @@ def handle (u : UTab) (args : List String) : String :=
       | _ => none)
     let rows := renderRows ncols.toNat! (decodeGo (bytesOfHex sep)) cs
     "ok " ++ hexOrDash (hexOfChars (rows.flatMap (· ++ ['\n'])))
+  | ["prettyerr", h, theme, origin] =>
+    (match parseDoc (bytesOfHex h) with
+     | .errors es => (match prettyErrors (stylerOf theme) (decodeGo (bytesOfHex origin)) es with
+        | some t => "ok " ++ hexOrDash (hexOfChars t)
+        | none => "panic")
+     | .records _ _ => "records"
+     | .panic => "panic")
+  | ["reflow", n, h, pfx] =>
+    "ok " ++ hexOrDash (hexOfChars (reflow n.toNat! (if pfx == "none" then [] else (pfx.splitOn ",").map (fun x => decodeGo (bytesOfHex x))) (decodeGo (bytesOfHex h))))
   | ["strip", h] => "ok " ++ hexOrDash (hexOfChars (strip (decodeGo (bytesOfHex h))))
   | ["styledprint", h, theme] => withRecords h fun rs => "ok " ++ hexOrDash (hexOfChars (styledPrintRecords u (stylerOf theme) rs))
   | ["json", h, pretty, file] =>
